@@ -59,6 +59,7 @@ var maxAllocRatio float64
 func run(p Prog) *prog.Result {
 	res := &prog.Result{}
 	env := valfx.NewEnv(p.Signed)
+	env.AddDuties(16)              // proposer / sync-committee duties registered: those roles' messages get past the duty rule
 	env2 := valfx.NewEnv(p.Signed) // for the ValidatePubsubMessage wrapper (it reads the wall clock)
 	classes := map[string]bool{}
 	deep := 0
@@ -181,14 +182,23 @@ func genSpec(t *rapid.T) *vmsg.Spec {
 		return genWild(t)
 	}
 	s := &vmsg.Spec{Topic: "right", EnvSig: "valid", SigKind: "ok", PSigKind: "ok", Just: "none", RecvRelMs: 4000}
-	s.Val = rapid.SampledFrom([]int{0, 0, 0, 1}).Draw(t, "val")
+	s.Val = rapid.SampledFrom([]int{0, 0, 0, 1, 6, 7}).Draw(t, "val") // committees 4, 7, 10, 13
 	s.Role = rapid.SampledFrom([]int{0, 0, 0, 1, 1, 2, 3, 4}).Draw(t, "role")
 	s.SlotRel = int64(rapid.IntRange(0, 3).Draw(t, "slotrel"))
-	s.Round = uint64(rapid.IntRange(1, 3).Draw(t, "round"))
-	n := 4
-	if s.Val == 1 {
-		n = 7
+	if rapid.IntRange(0, 3).Draw(t, "slot_any") == 0 {
+		s.SlotRel = int64(rapid.IntRange(0, 14).Draw(t, "slotrel_any")) // every height residue modulo the committee size
 	}
+	s.Round = uint64(rapid.IntRange(1, 3).Draw(t, "round"))
+	if rapid.IntRange(0, 3).Draw(t, "round_any") == 0 {
+		// later rounds, received when they are current (quick rounds of 2 s up to round 8, then 2 min each)
+		s.Round = uint64(rapid.IntRange(4, 12).Draw(t, "round_late"))
+		if s.Round <= 8 {
+			s.RecvRelMs = int64(s.Round-1)*2000 + 500
+		} else {
+			s.RecvRelMs = 16000 + int64(s.Round-9)*120000 + 500
+		}
+	}
+	n := valfx.CommitteeSize(s.Val)
 	signer := uint64(rapid.IntRange(1, n).Draw(t, "signer"))
 	s.EnvOp = signer
 	if rapid.IntRange(0, 3).Draw(t, "ispartial") == 0 {
@@ -203,11 +213,14 @@ func genSpec(t *rapid.T) *vmsg.Spec {
 		case 0:
 			s.Leader = true
 			s.Value = rapid.SampledFrom([]string{"A-value", "B-value"}).Draw(t, "value")
+			if s.Round > 1 {
+				s.Just = "rc-quorum"
+			}
 		case 2:
 			if rapid.IntRange(0, 2).Draw(t, "decided") == 0 {
-				s.Signers = []uint64{1, 2, 3}
-				if n == 7 {
-					s.Signers = []uint64{1, 2, 3, 4, 5}
+				s.Signers = nil
+				for i := 1; i <= n-(n-1)/3; i++ {
+					s.Signers = append(s.Signers, uint64(i))
 				}
 				s.Value = "A-value"
 			}
@@ -267,7 +280,7 @@ func genSpec(t *rapid.T) *vmsg.Spec {
 
 func genWild(t *rapid.T) *vmsg.Spec {
 	s := &vmsg.Spec{}
-	s.Val = rapid.SampledFrom([]int{0, 0, 0, 0, 1, 1, 2, 3, 4, 5}).Draw(t, "wval")
+	s.Val = rapid.SampledFrom([]int{0, 0, 0, 0, 1, 1, 2, 3, 4, 5, 6, 7}).Draw(t, "wval")
 	s.Role = rapid.SampledFrom([]int{0, 0, 0, 1, 2, 3, 4, 5, 6, 7, 200}).Draw(t, "wrole")
 	s.SSVType = rapid.SampledFrom([]string{"consensus", "consensus", "consensus", "partial", "partial", "event", "dkg", "unknown"}).Draw(t, "wssvtype")
 	s.DomainX = rapid.IntRange(0, 20).Draw(t, "wdomx") == 0
@@ -344,6 +357,7 @@ type ConcProg struct {
 func runConc(p ConcProg) *prog.Result {
 	res := &prog.Result{NonTrivial: len(p.Specs) >= 2}
 	env := valfx.NewEnv(p.Signed)
+	env.AddDuties(16)
 	type in struct {
 		topic string
 		data  []byte
